@@ -34,6 +34,7 @@ class Interp:
         self.stats = {"eqns": 0, "prims": {}, "stubs": {}, "functions": set()}
         self.hooks = hooks or {}
         self.chol_tags = {}
+        self._seen_tb = set()
         self.fresh_normals = None   # callable(shape) -> object array (C19 stub)
         self.phi = None             # Phi-atom provider (C20), optional
 
@@ -130,6 +131,10 @@ class Interp:
             tb = eqn.source_info.traceback
             if tb is None:
                 return
+            key = id(tb)
+            if key in self._seen_tb:
+                return
+            self._seen_tb.add(key)
             for fr in tb.frames:
                 fn = fr.file_name
                 if "/gaussian_toolbox/" in fn:
@@ -143,8 +148,7 @@ class Interp:
         params = eqn.params
         self.stats["eqns"] += 1
         self.stats["prims"][name] = self.stats["prims"].get(name, 0) + 1
-        if self.stats["eqns"] % 7 == 0:
-            self._record_source(eqn)
+        self._record_source(eqn)
         anysym = any(is_sym(a) for a in invals)
         if name in CALL_PRIMS:
             cj = params["jaxpr"]
